@@ -336,6 +336,28 @@ def run(ctx, replay=None):
                        'md5file: the digest is not MD5 of the bytes the file holds now (same size, offset and length as the call before, other contents)',
                        {'ops': seq_ops[:seq_ops.index(o_) + 1][-3:], 'expected': want, 'actual': got})
             break
+    # the same address and length hashed twice in one function with the bytes changed in between (an optimising caller must not be
+    # allowed to reuse the first value), and two threads hashing two files at the same time
+    tw_ops, tw_ref = [], []
+    for i in range(24):
+        ln = ctx.rng.choice([1, 3, 4, 8, 15, 16, 30])
+        m1 = bytes(ctx.rng.randrange(256) for _ in range(ln)); m2 = bytes(ctx.rng.randrange(256) for _ in range(ln))
+        tw_ops.append('twice %s %s' % (hexs(m1), hexs(m2)))
+        tw_ref.append(' '.join(py_ref(o, m) for m in (m1, m2) for o in ('fnv32', 'fnv64', 'mm32')))
+    tw_ops.append('md5par %d' % (60 if ctx.tier == 'quick' else 600)); tw_ref.append('OK')
+    rc, o, e = ctx.run([exe], inp=('\n'.join(tw_ops) + '\n').encode(), timeout=600)
+    tl = o.decode('latin1').splitlines()
+    for o_, want, got in zip(tw_ops, tw_ref, tl + ['MISSING'] * len(tw_ops)):
+        ctx.cov['evaluations'] += 1
+        ctx.count('twice-same-address' if o_.startswith('twice') else 'file-two-threads')
+        if got != want:
+            if o_.startswith('twice'):
+                ctx.report('impl-vs-spec', {'op': 'fnv/mm32', 'observed': 'stale-value-for-same-address'},
+                           'hashing the same address and length again after the bytes were changed in place does not give the hash of the new bytes',
+                           {'op': o_, 'expected': want, 'actual': got})
+            else:
+                ctx.report('schedule', {'op': 'md5file', 'observed': 'digest-differs-under-concurrent-calls'},
+                           'qhashmd5_file from two threads at the same time: a digest differs from the one computed alone', {'op': o_, 'actual': got})
     nper = len(xs) * len(OPS)
     for k in (min(102, len(ops) - 1), min(nper // 3 + 4, len(ops) - 1), max(nper - 12, 0), len(ops) - 7):
         ctx.sample({'op': ops[k][:120], 'impl': il[k], 'model': ml[k], 'spec': spec.get(k)})
